@@ -27,6 +27,37 @@ ACC = Fraction(1, 10 ** 7)
 EPS = Fraction(1, 2 ** 53)
 
 
+def hoist_ites(v, budget=8):
+    """lift conditional sub-expressions to the top: f(c ? a : b) -> c ? f(a) : f(b) (a `?:` inside an arithmetic
+    expression is the same regime split as an if/else around a return); conditions are left untouched"""
+    if not isinstance(v, tuple) or not v:
+        return v
+    h = v[0]
+    if h == "ite":
+        return ("ite", v[1], hoist_ites(v[2], budget), hoist_ites(v[3], budget))
+    if h in ("+", "-", "*", "/"):
+        a, b = hoist_ites(v[1], budget), hoist_ites(v[2], budget)
+        if isinstance(a, tuple) and a and a[0] == "ite" and budget > 0:
+            return ("ite", a[1], hoist_ites((h, a[2], b), budget - 1), hoist_ites((h, a[3], b), budget - 1))
+        if isinstance(b, tuple) and b and b[0] == "ite" and budget > 0:
+            return ("ite", b[1], hoist_ites((h, a, b[2]), budget - 1), hoist_ites((h, a, b[3]), budget - 1))
+        return (h, a, b)
+    if h == "neg":
+        a = hoist_ites(v[1], budget)
+        if isinstance(a, tuple) and a and a[0] == "ite":
+            return ("ite", a[1], ("neg", a[2]), ("neg", a[3]))
+        return ("neg", a)
+    if h == "call" and len(v) == 3:
+        args = [hoist_ites(a, budget) for a in v[2]]
+        for i, a in enumerate(args):
+            if isinstance(a, tuple) and a and a[0] == "ite" and budget > 0:
+                l = tuple(args[:i]) + (a[2],) + tuple(args[i + 1:])
+                r = tuple(args[:i]) + (a[3],) + tuple(args[i + 1:])
+                return ("ite", a[1], hoist_ites(("call", v[1], l), budget - 1), hoist_ites(("call", v[1], r), budget - 1))
+        return ("call", v[1], tuple(args))
+    return v
+
+
 def leaves(v, facts=None):
     """[(facts, value)] of a nested-ite term; infeasible combinations are pruned"""
     facts = facts or []
